@@ -101,7 +101,7 @@ def vc_mathstr(H):
 
 def _expect_mathstr(ctx, r):
     if not isinstance(r, SMathStr):
-        ctx.oblige('post: result is a mathstr', False)
+        raise OutOfSubset('post: result is a mathstr' + ' -- shape not recognised, contract does not apply')
         raise PathEnd('result is not a mathstr')
 
 
@@ -220,7 +220,7 @@ def vc_codegen_product(H):
                         aux = lambda q: z3.Implies(z3.Not(fold.Has(m, q)), fold.Spec(m, q) == 0)
                         hyp = z3.And(aux(kk.t), aux(ko))
                         if not isinstance(res, FunDict):
-                            ctx.oblige('inv: result variable is still the dict', False, 'inv')
+                            raise OutOfSubset('inv: result variable is still the dict' + ' -- shape not recognised, contract does not apply')
                             return
                         ctx.oblige('inv-step: key present  <=>  some selected pair so far maps to it',
                                    z3.Implies(hyp, res.present(kk.t) == has1), 'inv')
